@@ -85,16 +85,16 @@ func (v *vstream) Write(p []byte) (int, error) {
 	}
 	return len(p), nil
 }
-func (v *vstream) Close() error                   { return nil }
-func (v *vstream) FullClose() error               { return nil }
-func (v *vstream) Reset() error                   { return v.real.Reset() }
-func (v *vstream) Headers() p2p.Headers           { return v.real.Headers() }
-func (v *vstream) ResponseHeaders() p2p.Headers   { return v.real.ResponseHeaders() }
-func (v *vstream) UpdateStatRealStreamClosed()    {}
-func (v *vstream) Reader() *p2p.ReaderChan        { return v.r }
-func (v *vstream) Writer() *p2p.WriterChan        { return v.w }
-func (v *vstream) Done() chan struct{}            { return v.done }
-func (v *vstream) RealStream() p2p.Stream         { return v.real }
+func (v *vstream) Close() error                 { return nil }
+func (v *vstream) FullClose() error             { return nil }
+func (v *vstream) Reset() error                 { return v.real.Reset() }
+func (v *vstream) Headers() p2p.Headers         { return v.real.Headers() }
+func (v *vstream) ResponseHeaders() p2p.Headers { return v.real.ResponseHeaders() }
+func (v *vstream) UpdateStatRealStreamClosed()  {}
+func (v *vstream) Reader() *p2p.ReaderChan      { return v.r }
+func (v *vstream) Writer() *p2p.WriterChan      { return v.w }
+func (v *vstream) Done() chan struct{}          { return v.done }
+func (v *vstream) RealStream() p2p.Stream       { return v.real }
 
 var _ p2p.VirtualStream = (*vstream)(nil)
 
